@@ -2,7 +2,7 @@ import GuppyVerif.Lemmas.C01Set
 import GuppyVerif.Lemmas.C01Acct
 /-! Bridges between the recursive invariant `Holds` and the path-based vocabulary of
     `Spec/C01.lean` (`LeavesOnly`, `leafWires`, `Ty.at`, `sub`). -/
-namespace GuppyVerif.Wiring
+namespace GuppyVerif.DFWiring
 
 theorem HoldsList.get {n : Nat} {L : Locals} {env : Env} {p : PlaceId} :
     ∀ (ts : List Ty) (i : Nat) (vs : List Val) (j : Nat) (tj : Ty),
@@ -197,4 +197,4 @@ theorem setitem_enclosing_none (t : Ty) (L : Locals) (n : Nat) (p : PlaceId) (w 
   | leaf c d => simpa [setitem, hidem] using this
   | node k cs => cases isRet <;> simpa [setitem, hidem] using this
 
-end GuppyVerif.Wiring
+end GuppyVerif.DFWiring
